@@ -80,6 +80,9 @@ func buildPool() {
 		add("[BITS 32]\nzq\tEQU\t4\n\tMOV EAX,[EBX-4+ESI]\n\tMOV ECX,[4+EBX]\n\tMOV EDX,[EBX+ESI*2-8+4]\n\tMOV AL,[0x1234]\n\tMOV [0x1234],EAX\n\tADD EAX,zq*2-1\n\tMOV AX,[BX-2+SI]\n\tCMP AL,0xfa\nzl:\n\tDD zl-1+2,zq/2\n", "zoo-a")
 		add("[BITS 32]\nzq\tEQU\t9\n\tMOV EAX,[ESI-4+EBX]\n\tMOV ECX,[EBX+4]\n\tMOV AL,[ESI]\n\tMOV [EDI],EAX\n\tMOV AX,[SI]\n\tADD EAX,1-zq*2\n\tMOV AX,[BX+SI-2]\n\tCMP AL,0x7a\nzl:\n\tDD 2+zl-1,zq%2\n", "zoo-b")
 		add("\tMOV AL,[0x1234]\n\tMOV AX,[0x1234]\n\tMOV [0x0ff0],AL\n\tMOV AL,[SI]\n\tMOV AX,[BX]\n\tMOV [DI],AL\n\tMOV AX,[BX-2+SI]\nzl:\n\tDW zl\n", "zoo-c")
+		add("\tPUSH DS\n\tPUSH ES\n\tPOP DS\n\tPUSH CS\n\tPUSH FS\n\tPOP GS\n\tMOV AX,DS\n\tMOV ES,AX\nzl:\n\tDW zl\n", "zoo-d")
+		add("\tPUSH 1\nza:\n\tDW za\n\tPUSH 300\nzb:\n\tDW zb\n\tPUSH AX\n\tPOP BX\n\tPUSH WORD [BX]\nzc:\n\tDW zc\n\tMOV AX,1\n\tADD AX,300\n\tIN AL,0x60\n\tOUT 0x20,AL\nzd:\n\tDW zd\n", "zoo-e")
+		add("[BITS 32]\n\tPUSH 1\nza:\n\tDD za\n\tPUSH 300\nzb:\n\tDD zb\n\tPUSH EAX\n\tPOP EBX\n\tPUSH DWORD [EBX]\nzc:\n\tDD zc\n\tIMUL ECX,300\n\tSHL EAX,3\n\tNOT EDX\nzd:\n\tDD zd\n", "zoo-f")
 		// tiny programs: one catalogue statement, a label after it, both modes
 		ntiny := 20
 		if tier() == "thorough" {
